@@ -14,7 +14,7 @@ RULE = ("every command x option combination on healthy, unsynced, damaged, parti
         "truncated / re-timed / written by fd. Allowed sets: status, diff, list, dup, check*, devices: log and lock file only; scrub: "
         "+ content; sync: + parity + content, never a data disk; fix: data and parity only, each changed data path must be named by a "
         "fixed:/status:recovered|unrecoverable/..._fixed tag, never content; pool: inside the pool dir only; touch: content + only the "
-        "sub-second part of time-stamps that were zero on disk. distinct = (array state, command line).")
+        "sub-second part of time-stamps that were zero on disk. State kind 'unrecoverable': stripes damaged beyond the redundancy, plain fix (leaves NAME.unrecoverable copies), then shuffled restricted / filtered fixes, one range computed to open such a copy without finishing it, copies re-timed before -e/-b. distinct = (array state, command line).")
 
 
 def _unmatched(res):
